@@ -53,6 +53,7 @@ var (
 	doLocks  = flag.Bool("locks", true, "rewrite Lock/RLock")
 	doMaps   = flag.Bool("maps", true, "rewrite map ranges")
 	doFS     = flag.Bool("fs", true, "redirect os.ReadFile/os.Stdin in openapi3")
+	forRace  = flag.Bool("race", false, "the copy will be built with -race: select files by the race build tag")
 )
 
 var startsGoroutines = map[string]bool{}
@@ -105,6 +106,9 @@ func main() {
 			packages.NeedTypes | packages.NeedTypesInfo | packages.NeedImports | packages.NeedDeps,
 		Dir: rootDir,
 		Env: append(os.Environ(), "GOFLAGS=-mod=mod", "GOPROXY=off", "GOSUMDB=off"),
+	}
+	if *forRace {
+		cfg.BuildFlags = []string{"-tags=race"}
 	}
 	// every library package of the tree (a changed tree may have new ones); commands and the runtime itself are left alone
 	all, err := packages.Load(cfg, "./...")
@@ -167,7 +171,11 @@ func main() {
 	for _, s := range sites {
 		fmt.Fprintf(&sb, "\t\t{%q, %d, %q, %q, %q},\n", s.File, s.Line, s.Kind, s.Func, s.Obj)
 	}
-	sb.WriteString("\t}\n}\n")
+	sb.WriteString("\t}\n")
+	if len(startsGoroutines) > 0 {
+		sb.WriteString("\tLibraryStartsGoroutines = true\n")
+	}
+	sb.WriteString("}\n")
 	check(os.WriteFile(filepath.Join(dst, "sites_gen.go"), []byte(sb.String()), 0o644))
 
 	keys := make([]string, 0, len(stats))
@@ -201,6 +209,7 @@ type rewriter struct {
 	stats  map[string]int
 	fn     string
 	usedOS bool
+	keep   map[string]string // local import name -> an exported identifier of that package (keeps the import used after a rewrite)
 	zzn    int
 	quiet  int // >0 inside the body of a range over a map whose iteration order the simulator cannot own
 }
@@ -255,15 +264,33 @@ func rewriteFile(p *packages.Package, f *ast.File, src []byte, stats map[string]
 			if !ok {
 				return true
 			}
+			alive := func() {
+				if r.keep == nil {
+					r.keep = map[string]string{}
+				}
+				switch pn.Imported().Path() {
+				case "os":
+					r.keep[pn.Name()] = "ErrNotExist"
+				case "io/ioutil":
+					r.keep[pn.Name()] = "Discard"
+				}
+			}
 			switch pn.Imported().Path() + "." + sel.Sel.Name {
 			case "os.ReadFile", "io/ioutil.ReadFile":
 				r.replace(sel.Pos(), sel.End(), "zzsimrt.ReadFile")
-				r.usedOS = pn.Imported().Path() == "os" || r.usedOS
+				alive()
+				r.stats["fs"]++
+			case "os.Open", "os.Stat", "os.Lstat":
+				// other ways to get at a file's content or existence go through the same seam
+				r.replace(sel.Pos(), sel.End(), "zzsimrt."+sel.Sel.Name)
+				alive()
 				r.stats["fs"]++
 			case "os.Stdin":
 				r.replace(sel.Pos(), sel.End(), "zzsimrt.Stdin()")
-				r.usedOS = true
+				alive()
 				r.stats["fs"]++
+			case "os.OpenFile", "os.ReadDir", "os.DirFS", "os.ReadLink", "io/ioutil.ReadDir":
+				fmt.Fprintf(os.Stderr, "note: %s at %s is not redirected to the simulated storage: reads through it are invisible to the loader checks\n", pn.Imported().Path()+"."+sel.Sel.Name, r.fset.Position(sel.Pos()))
 			}
 			return true
 		})
@@ -291,11 +318,66 @@ func rewriteFile(p *packages.Package, f *ast.File, src []byte, stats map[string]
 			}
 			named, ok := t.(*types.Named)
 			if !ok || named.Obj().Pkg() == nil || named.Obj().Pkg().Path() != "sync" || named.Obj().Name() != "Once" {
+				// Do promoted from a sync.Once embedded by value: the Once is the field of that name
+				if s := p.TypesInfo.Selections[sel]; s != nil && len(s.Index()) == 2 && r.isSyncMethod(sel, "Once") {
+					if st, ok := t.Underlying().(*types.Struct); ok {
+						if f := st.Field(s.Index()[0]); f.Embedded() && f.Name() == "Once" {
+							if _, ptr := f.Type().(*types.Pointer); ptr {
+								recv = "(" + r.text(sel.X) + ").Once"
+							} else {
+								recv = "&(" + r.text(sel.X) + ").Once"
+							}
+							id := newSite(r.fset, call.Pos(), "once", "", r.text(sel.X))
+							r.replace(call.Pos(), call.Lparen+1, fmt.Sprintf("zzsimrt.OnceDo(%d, %s, ", id, recv))
+							r.stats["once"]++
+						}
+					}
+				}
 				return true
 			}
 			id := newSite(r.fset, call.Pos(), "once", "", r.text(sel.X))
 			r.replace(call.Pos(), call.Lparen+1, fmt.Sprintf("zzsimrt.OnceDo(%d, %s, ", id, recv))
 			r.stats["once"]++
+			return true
+		})
+	}
+	if *doLocks {
+		// sync.OnceFunc / OnceValue / OnceValues hide a Once in a closure: their zzsimrt twins are built on OnceDo
+		ast.Inspect(f, func(n ast.Node) bool {
+			call, ok := n.(*ast.CallExpr)
+			if !ok || len(call.Args) != 1 {
+				return true
+			}
+			fun := call.Fun
+			switch x := fun.(type) {
+			case *ast.IndexExpr:
+				fun = x.X
+			case *ast.IndexListExpr:
+				fun = x.X
+			}
+			sel, ok := fun.(*ast.SelectorExpr)
+			if !ok {
+				return true
+			}
+			id, ok := sel.X.(*ast.Ident)
+			if !ok {
+				return true
+			}
+			pn, ok := p.TypesInfo.Uses[id].(*types.PkgName)
+			if !ok || pn.Imported().Path() != "sync" {
+				return true
+			}
+			switch sel.Sel.Name {
+			case "OnceFunc", "OnceValue", "OnceValues":
+				site := newSite(r.fset, call.Pos(), "once", "", "sync."+sel.Sel.Name)
+				r.replace(sel.Pos(), sel.End(), "zzsimrt."+sel.Sel.Name)
+				r.insert(call.Lparen+1, fmt.Sprintf("%d, ", site), 0)
+				if r.keep == nil {
+					r.keep = map[string]string{}
+				}
+				r.keep[pn.Name()] = "NewCond"
+				r.stats["once"]++
+			}
 			return true
 		})
 	}
@@ -309,8 +391,13 @@ func rewriteFile(p *packages.Package, f *ast.File, src []byte, stats map[string]
 	imp := fmt.Sprintf("\nimport zzsimrt %q\n", modPath+"/zzsimrt")
 	r.edits = append(r.edits, edit{r.off(f.Name.End()), r.off(f.Name.End()), imp, 0})
 	tail := "\nvar _ = zzsimrt.Yield\n"
-	if r.usedOS {
-		tail += "var _ = os.ErrNotExist\n"
+	names := make([]string, 0, len(r.keep))
+	for n := range r.keep {
+		names = append(names, n)
+	}
+	sort.Strings(names)
+	for _, n := range names {
+		tail += fmt.Sprintf("var _ = %s.%s\n", n, r.keep[n])
 	}
 	return apply(src, r.edits, tail), len(r.edits)
 }
